@@ -89,9 +89,25 @@ def build(k):
              cfg=dict(k=k, m=m, n=n), vcycles=12, show=[top.data, top.p, top.q, top.mode, top.dec.o, top.dec.sec, top.dec.ded])
 
 
+def build_seq(ks, tag):
+    """several codecs of different widths elaborated one after the other in ONE process (module-level state such as
+    caches shared between instances is part of the real code's behaviour)"""
+    hs = []
+    for k in ks:
+        h = build(k)
+        h.name = "ecc_%s_k%d" % (tag, k)
+        h.cfg = dict(h.cfg, elaborated_after=[x for x in ks if x != k][:ks.index(k)], same_process=True)
+        hs.append(h)
+    return hs
+
+
 def jobs(tier):
     ks = list(range(1, 129)) if tier == "thorough" else list(range(1, 41)) + [57, 64, 72, 120, 127, 128]
-    return [Job("ecc_k%d" % k, build, dict(k=k), cost=k) for k in ks]
+    js = [Job("ecc_k%d" % k, build, dict(k=k), cost=k) for k in ks]
+    # same number of check bits, different widths, both elaboration orders
+    js.append(Job("ecc_seq_up", build_seq, dict(ks=[8, 11, 15, 16, 24, 26], tag="seq_up"), cost=60))
+    js.append(Job("ecc_seq_down", build_seq, dict(ks=[26, 24, 16, 15, 11, 8], tag="seq_down"), cost=60))
+    return js
 
 MANIFEST = dict(
     text="For each enumerated data width k the solver shows decoder(encoder(d) xor flips) meets the SECDED contract for ALL "
